@@ -14,7 +14,8 @@ TECHNIQUE = ('model-based stateful testing with generated transaction cuts: Hypo
              'a mini-ZODB connection that writes exactly the objects that registered themselves (plus '
              'what becomes reachable from them); after every commit a fresh connection reloads the '
              'records and must see the writer\'s model in a sound tree; after every abort the writer\'s '
-             'own objects must show the last committed contents')
+             'own objects must show the last committed contents; '
+             'cache sweeps in mid-transaction (nodes with uncommitted changes must refuse to be evicted) and mutable object values changed in place and stored again are part of the histories')
 RULE = ('a case is a configuration + history with commit/abort cuts.  Non-trivial: a commit whose '
         'transaction changed the structure (split, leaf unlink, root split, clear) of a tree whose nodes '
         'already had oids, or an abort after a mutation of a stored container.  Distinct = distinct JSON.')
